@@ -189,6 +189,32 @@ class Ctx:
         log("[%s]   %d distinct states, %d generated, %.1fs" % (self.pid, r.distinct, r.generated, r.wall))
         return r
 
+    # ---- symbolic bounded check of the specification (Apalache) -----------------------
+    def apalache(self, module, inv, timeout=600):
+        """apalache-mc check --inv=<inv> --length=0 on spec/apalache/<module>.tla (symbolic integers).
+        A violated invariant is a defect of the specification (tool failure); if Apalache itself
+        cannot run, the stage is recorded as skipped (TLC's bounded instances remain)."""
+        out = os.path.join(self.work, "apalache")
+        shutil.rmtree(out, ignore_errors=True)
+        t0 = time.time()
+        try:
+            p = subprocess.run(["timeout", str(timeout), "apalache-mc", "check", "--inv=" + inv, "--length=0",
+                                "--out-dir=" + out, os.path.join(SPEC, "apalache", module + ".tla")],
+                               capture_output=True, text=True, cwd=self.work)
+            txt = p.stdout + p.stderr
+        except OSError as e:
+            txt, p = str(e), None
+        shutil.rmtree(out, ignore_errors=True)
+        ok = p is not None and "The outcome is: NoError" in txt
+        violated = "invariant" in txt and "violated" in txt
+        self.stages.append({"stage": "apalache symbolic check", "module": module, "invariant": inv,
+                            "outcome": "NoError" if ok else ("violated" if violated else "not run"),
+                            "wall_s": round(time.time() - t0, 1)})
+        log("[%s] Apalache %s %s: %s (%.1fs)" % (self.pid, module, inv, "NoError" if ok else ("VIOLATED" if violated else "not run"), time.time() - t0))
+        if violated:
+            raise ToolFailure("Apalache: invariant %s of %s violated (defect of the specification)" % (inv, module))
+        return ok
+
     # ---- spec -> implementation ------------------------------------------------------
     def emit_replay(self, module, cfg, name, timeout=1800, extra_env=None, **kw):
         """TLC enumerates the bounded instance and emits one case per CASE line (input +
@@ -259,6 +285,19 @@ class Ctx:
         """The harness drives the real code with seeded generated inputs and records one
         ndjson event per call; TLC re-evaluates the specification along the trace."""
         name = name or driver
+        # large runs are validated in chunks (a trace of several hundred MB is too much for one
+        # ndJsonDeserialize); each chunk has its own seed
+        chunk = kw.pop("chunk", 25000)
+        if driver != "@cases" and n > chunk:
+            done, i, last = 0, 0, None
+            while done < n:
+                m = min(chunk, n - done)
+                last = self.record_validate(driver, m, module, cfg, name="%s.%d" % (name, i), timeout=timeout, args=args,
+                                            sequential=sequential, devs=devs, base_tag=base_tag,
+                                            seed_offset=seed_offset + 7919 * i, chunk=chunk, **kw)
+                done += m
+                i += 1
+            return last
         trace = os.path.join(self.work, name + ".trace.ndjson")
         t0 = time.time()
         cmd = [harness_bin("record"), driver, str(self.seed + seed_offset), str(n), trace,
